@@ -104,6 +104,8 @@ class Inliner:
             return f"{e['p']}{{{', '.join(f[0] + ': ' + s(f[1]) for f in e['f'])}{', ..' if 'rest' in e else ''}}}"
         if k == "macro" and "a" in e:
             return f"{e['n']}!({', '.join(s(a) for a in e['a'])})"
+        if k == "range":
+            return (s(e["s"]) if e.get("s") is not None else "") + ("..=" if e.get("closed") else "..") + (s(e["e"]) if e.get("e") is not None else "")
         if k == "index":
             return f"{s(e['e'])}[{s(e['i'])}]"
         if k == "block":
